@@ -358,6 +358,9 @@ func (r *Recomposer) recomp(v any, rv reflect.Value) {
 		if et.Kind() == reflect.Ptr {
 			et = et.Elem()
 			for i := 0; i < size; i++ {
+				if va[i] == nil {
+					continue // a nil element stays a nil pointer
+				}
 				ev := reflect.New(et)
 				r.recomp(va[i], ev)
 				av.Index(i).Set(ev)
@@ -412,8 +415,13 @@ func (r *Recomposer) recomp(v any, rv reflect.Value) {
 				rv.SetMapIndex(reflect.ValueOf(k), reflect.ValueOf(r.recompAny(m)))
 			}
 		case et.Kind() == reflect.Ptr:
+			pt := et
 			et = et.Elem()
 			for k, m := range vm {
+				if m == nil {
+					rv.SetMapIndex(reflect.ValueOf(k), reflect.Zero(pt)) // a nil member stays a nil pointer
+					continue
+				}
 				ev := reflect.New(et)
 				r.recomp(m, ev)
 				rv.SetMapIndex(reflect.ValueOf(k), ev)
@@ -486,20 +494,21 @@ func (r *Recomposer) recomp(v any, rv reflect.Value) {
 		}
 		for k := range im {
 			sf := im[k]
-			f := rv.FieldByIndex(sf.Index)
 			var m any
 			var has bool
 			if m, has = vm[k]; !has {
-				if m, has = vm[sf.Name]; !has {
-					name := []byte(sf.Name)
-					name[0] |= 0x20
-					if m, has = vm[string(name)]; !has {
-						m, has = vm[strings.ToLower(string(name))]
+				// Fall back to the field name, but never to a key that belongs to another field.
+				for _, alt := range []string{sf.Name, lowerFirst(sf.Name), strings.ToLower(sf.Name)} {
+					if _, taken := im[alt]; taken && alt != k {
+						continue
+					}
+					if m, has = vm[alt]; has {
+						break
 					}
 				}
 			}
 			if has && m != nil {
-				r.setValue(m, f, &sf)
+				r.setValue(m, fieldByIndexAlloc(rv, sf.Index), &sf)
 			}
 		}
 	case reflect.Interface:
@@ -517,6 +526,26 @@ func (r *Recomposer) recomp(v any, rv reflect.Value) {
 	default:
 		panic(fmt.Errorf("can not convert (%T)%v to a %s", v, v, rv.Type()))
 	}
+}
+
+func lowerFirst(s string) string {
+	name := []byte(s)
+	name[0] |= 0x20
+	return string(name)
+}
+
+// fieldByIndexAlloc is reflect.Value.FieldByIndex that allocates nil embedded struct pointers on the way.
+func fieldByIndexAlloc(rv reflect.Value, index []int) reflect.Value {
+	for i, x := range index {
+		if 0 < i && rv.Kind() == reflect.Ptr {
+			if rv.IsNil() {
+				rv.Set(reflect.New(rv.Type().Elem()))
+			}
+			rv = rv.Elem()
+		}
+		rv = rv.Field(x)
+	}
+	return rv
 }
 
 func (r *Recomposer) setValue(v any, rv reflect.Value, sf *reflect.StructField) {
